@@ -54,7 +54,7 @@ func cpuNow() time.Duration {
 
 const (
 	growthLimit  = 3.2                    // per doubling
-	sampleTarget = 3 * time.Millisecond   // a sample (k calls) lasts at least this long
+	sampleTarget = 2 * time.Millisecond   // a sample (k calls) lasts at least this long
 	perCallFloor = 20 * time.Microsecond  // pairs whose smaller point is below the floor do not count
 	slowCall     = 50 * time.Millisecond  // calls slower than this are sampled twice, not five times
 	runCap       = 300 * time.Millisecond // no larger input once one call takes this long
